@@ -1,6 +1,7 @@
 """C09, C10: explicit-state enumeration of the configuration space (E1) whose classes are re-judged on
 the real code (E3 runs, E2 compiles), plus bounded direct runs without canonicalisation."""
 import itertools
+import re
 
 import catalogue
 import e1
@@ -311,3 +312,134 @@ def c10(tier):
 
 
 CHECKS = {"C09": c09, "C10": c10}
+
+
+# ------------------------------------------------------------------------------------------ C19
+
+PROBE_HEAD = """#![allow(warnings)]
+use enum_tools::EnumTools;
+use core::marker::PhantomData;
+%(decl)s
+type R = %(repr)s;
+fn same<T>(_: PhantomData<T>, _: PhantomData<T>) {}
+fn is_iter<I: Iterator<Item = E> + DoubleEndedIterator + ExactSizeIterator + core::iter::FusedIterator>(_: I) {}
+fn is_names<I: Iterator<Item = &'static str> + DoubleEndedIterator + ExactSizeIterator + core::iter::FusedIterator>(_: I) {}
+"""
+
+PROBES = {
+    "into": ["const C_INTO_A: R = E::V0.into();", "const C_INTO_B: R = E::into(E::V1);", "static S_INTO: [R; 2] = [E::V0.into(), E::V1.into()];",
+             "const fn cf_into(e: E) -> R { e.into() }", "fn p_into() { let _: fn(E) -> R = E::into; let _a: [u8; { (E::V0.into() == E::V0.into()) as usize }] = [0]; }"],
+    "MIN": ["const C_MIN: E = E::MIN;", "static S_MIN: E = E::MIN;", "fn p_min() { let _: E = <E>::MIN; }"],
+    "MAX": ["const C_MAX: E = E::MAX;", "static S_MAX: E = E::MAX;", "fn p_max() { let _: E = <E>::MAX; }"],
+    "next": ["fn p_next() { let _: fn(E) -> Option<E> = E::next; let _: Option<E> = E::V0.next(); }"],
+    "next_back": ["fn p_next_back() { let _: fn(E) -> Option<E> = E::next_back; let _: Option<E> = E::V0.next_back(); }"],
+    "try_from": ["fn p_try_from() { let _: fn(R) -> Option<E> = E::try_from; let _: Option<E> = E::try_from(0 as R); }"],
+    "from_str": ["fn p_from_str() { let _: fn(&str) -> Option<E> = E::from_str; let _: Option<E> = E::from_str(\"x\"); let s = String::from(\"y\"); let _: Option<E> = E::from_str(&s); }"],
+    "as_str": ["fn p_as_str() { let _: fn(E) -> &'static str = E::as_str; let s: &'static str = E::V0.as_str(); static KEEP: std::sync::OnceLock<&'static str> = std::sync::OnceLock::new(); let _ = KEEP.set(s); }"],
+    "iter": ["fn p_iter() { let _: fn() -> EIter = E::iter; is_iter(E::iter()); let mut it: EIter = E::iter(); let _: Option<E> = it.next(); let _: usize = it.len(); }"],
+    "range": ["fn p_range() { let _: fn(E, E) -> EIter = E::range; is_iter(E::range(E::V0, E::V1)); }"],
+    "names": ["fn p_names() { let _: fn() -> ENames = E::names; is_names(E::names()); let mut it: ENames = E::names(); let _: Option<&'static str> = it.next_back(); }"],
+    "Debug": ["fn p_debug() { fn d<T: core::fmt::Debug>(_: T) {} d(E::V0); let _ = format!(\"{:?}\", E::V0); }"],
+    "Display": ["fn p_display() { fn d<T: core::fmt::Display>(_: T) {} d(E::V0); let _: String = E::V0.to_string(); }"],
+    "FromStr": ["fn p_fromstr() { let _: Result<E, ()> = <E as core::str::FromStr>::from_str(\"\"); let _: Result<E, ()> = \"x\".parse::<E>(); same(PhantomData::<<E as core::str::FromStr>::Err>, PhantomData::<()>); }"],
+    "Into": ["fn p_into_tr() { let _: R = <R as From<E>>::from(E::V0); let _: R = From::from(E::V0); fn g<T: Into<R>>(_: T) {} g(E::V0); }"],
+    "IntoStr": ["fn p_intostr() { let _: &'static str = <&'static str as From<E>>::from(E::V0); fn g<T: Into<&'static str>>(_: T) {} g(E::V0); }"],
+    "TryFrom": ["fn p_tryfrom() { let _: Result<E, ()> = <E as TryFrom<R>>::try_from(0 as R); same(PhantomData::<<E as TryFrom<R>>::Error>, PhantomData::<()>); fn g<T: TryInto<E, Error = ()>>(_: T) {} g(0 as R); }"],
+}
+
+
+def probe_source(d, cfg):
+    parts = [PROBE_HEAD % {"decl": d.render(cfg.attr_lines(), indent=""), "repr": d.repr}]
+    for f, _p in cfg.feats:
+        parts += PROBES.get(f, [])
+    return "\n".join(parts) + "\n"
+
+
+def c19(tier):
+    res = Result("C19", tier, "exhaustive enumeration of (feature, mode, shape, repr) x signature ascription probes judged by rustc, plus explicit-state enumeration of "
+                               "all configurations showing one signature class per user-visible item")
+    spaces = run_space(res, tier)
+    # (1) E1: exactly one signature text per user-visible item over all configurations of an archetype,
+    #     and the same text for the gapless and the with-holes archetype of the same repr
+    sig = {}
+    for k, sp in spaces.items():
+        for item, kinds in sp["classes"].items():
+            uservis = item.startswith("zz_") or item.startswith("impl ") or item in ("EIter", "ENames")
+            if not uservis:
+                continue
+            cl = kinds.get("sig", [])
+            sig[(k, item)] = cl
+            res.states += 1
+            if len(cl) != 1:
+                # candidate: confirm with a probe on the real toolchain for each representative
+                confirmed = False
+                arch = dict(ARCHETYPES)[k]
+                for c in cl:
+                    cfg = e1.cfg_from_text(c["rep"], zz=False)
+                    m = re.search(r"repr\((\w+)\)", arch)
+                    vals = {"g": [3, 4, 5, 6], "hs": [-10, -5, -4, 3], "hl": [1, 2, 9]}[k]
+                    d = make_decl(m.group(1), vals, renames=False)
+                    v = e2.compile_one(probe_source(d, cfg))
+                    res.validated += 1
+                    if not v.ok:
+                        confirmed = True
+                        res.violation({"kind": "signature-depends-on-configuration", "item": item, "config": cfg.describe(), "errors": v.errors[:2]},
+                                      {"signatures": [x["text"] for x in cl], "rustc": v.to_json()}, {"repro.rs": probe_source(d, cfg) + "fn main() {}\n"})
+                if not confirmed:
+                    res.unconfirmed.append({"item": item, "archetype": k, "signatures": [x["text"] for x in cl][:4]})
+                    # different token text with the same meaning is possible; a *const* difference is not
+                    texts = [x["text"] for x in cl]
+                    if len(set(("const fn" in t) for t in texts)) > 1:
+                        c0 = e1.cfg_from_text(cl[0]["rep"], zz=False)
+                        res.violation({"kind": "const-depends-on-configuration", "item": item, "archetype": k},
+                                      {"signatures": texts[:4], "configs": [x["rep"] for x in cl][:4]},
+                                      {"repro.rs": "// signature of %s differs between configurations:\n// %s\nfn main() {}\n" % (item, texts[:2])})
+    for (k, item), cl in sig.items():
+        if k == "g" and ("hs", item) in sig and cl and sig[("hs", item)]:
+            a, b = cl[0]["text"], sig[("hs", item)][0]["text"]
+            res.transitions += 1
+            if a != b:
+                res.violation({"kind": "signature-depends-on-shape", "item": item}, {"gapless": a, "holes": b},
+                              {"repro.rs": "// signature of %s: gapless `%s` vs with holes `%s`\nfn main() {}\n" % (item, a, b)})
+    # (2) probes on the real toolchain
+    cases = []
+    reprs = enums.ALL_REPRS
+    for r in reprs:
+        for g in (True, False):
+            vals = [3, 4, 5] if g else [1, 5, 100]
+            d = make_decl(r, vals, renames=False)
+            modesets = [{}, {"as_str": "table", "from_str": "table", "FromStr": "table", "iter": "table"},
+                        {"as_str": "match", "from_str": "match", "FromStr": "match", "iter": "next_and_back"}]
+            if g:
+                modesets.append({"iter": "range"})
+            for ms in modesets:
+                cfg = catalogue.full_config(g, ms)
+                cases.append(("full", d, cfg))
+            if tier == "thorough" or r in ("i8", "u64", "usize", "i128"):
+                for cfg in catalogue.small_configs(1, g, explicit_auto=True):
+                    if cfg.feats:
+                        cases.append(("single", d, cfg))
+                # table_inline cannot be combined with range: probe it on its own
+                cases.append(("single", d, Config([("iter", {"mode": "table_inline"})])))
+                cases.append(("pair", d, Config([("iter", {"mode": "table"}), "range"])))
+                cases.append(("pair", d, Config([("iter", {"mode": "next_and_back"}), "range"])))
+    vs = e2.compile_many([{"src": probe_source(d, cfg)} for _w, d, cfg in cases])
+    for (w, d, cfg), v in zip(cases, vs):
+        res.states += 1
+        res.transitions += 1
+        res.validated += 1
+        res.outcome("probe:%s:%s" % (w, "ok" if v.ok else "FAILED"))
+        if v.ok:
+            res.nontrivial.add(cfg.key() + d.repr)
+        else:
+            res.violation({"kind": "documented-signature-probe-fails", "config": cfg.describe(), "repr": d.repr, "gapless": d.gapless, "errors": v.errors[:3]},
+                          {"rustc": v.to_json()}, {"repro.rs": probe_source(d, cfg) + "fn main() {}\n"})
+    res.rule = ("states = user-visible items whose signature classes were enumerated over all configurations + probe programs (each its own crate: const/static "
+                "contexts, fn-pointer ascriptions, associated types, trait bounds); non-trivial = distinct probe programs accepted by rustc")
+    res.bounds = {"reprs": len(reprs), "shapes": 2, "mode_sets": 4}
+    for w, d, cfg in cases[:2] + cases[-2:]:
+        res.sample({"what": w, "repr": d.repr, "config": cfg.describe()})
+    return res.finish()
+
+
+CHECKS["C19"] = c19
